@@ -290,7 +290,8 @@ def check_aggregation(report):
     p = bd.module.path
     # 1. every file descriptor is pre-loaded: pre_protos[...] = Proto.build(...) directly under `for fd in file_descriptors`
     stores = [(g, st) for g, st in stmt_guards(bd.node) if isinstance(st, ast.Assign) and isinstance(st.targets[0], ast.Subscript)
-              and isinstance(st.value, ast.Call) and ast.unparse(st.value.func) == "Proto.build"]
+              and isinstance(st.value, ast.Call) and ast.unparse(st.value.func) == "Proto.build"
+              and not any(k.arg == "all_resources" for k in st.value.keywords)]        # (the second pass may be written as such a loop too)
     r5.need(len(stores) == 1, "API.build: <pre_protos>[name] = Proto.build(...)", f"{len(stores)} found")
     g, st = stores[0]
     pre = ast.unparse(st.targets[0].value)
@@ -344,6 +345,10 @@ def check_aggregation(report):
             comp2 = par.get(comp2)
         if isinstance(comp2, (ast.DictComp, ast.ListComp, ast.GeneratorExp)):
             r5.check(not any(gg.ifs for gg in comp2.generators), p, c.lineno, "second pass comprehension", "every pre-loaded proto is rebuilt in the second pass")
+        elif isinstance(comp2, ast.For):
+            g3 = [g_ for g_, st_ in stmt_guards(bd.node) if any(x is c for x in ast.walk(st_))]
+            r5.check(bool(g3) and not [x for x in g3[0] if x[0] != "for"], p, c.lineno, f"second pass loop under {g3[0] if g3 else None}",
+                     "every pre-loaded proto is rebuilt in the second pass")
 
 
 def run(report: core.Report):
